@@ -350,6 +350,61 @@ func init() {
 		}
 		vCrashChild(args[0], spec)
 	})
+	// crash-huge: histories with one very large batch (more entities than the 16-bit in-batch sequence number can
+	// count): only the all-or-nothing clause is judged, by counting the generated entities in the recovered store
+	engine.RegisterWorker("crash-huge", func(args []string) {
+		engine.ServeWorker(func(task []byte) interface{} {
+			var spec CrashSpec
+			if err := json.Unmarshal(task, &spec); err != nil {
+				return CrashResult{HarnessEr: err.Error()}
+			}
+			return VRunCrashTaskDir(spec, func(dir string, res *CrashResult) {
+				w := VOpenWorld(dir)
+				defer w.Close()
+				h := w.NewHist()
+				n := 0
+				for _, op := range spec.Hist {
+					if op.N > n {
+						n = op.N
+					}
+				}
+				ds := w.Dsm.GetDataset(h.DsName(spec.Datasets[0]))
+				if ds == nil {
+					res.Viol = append(res.Viol, engine.Violation{Key: "C04:dataset-missing", What: "dataset missing after recovery"})
+					return
+				}
+				got := 0
+				seen := map[string]bool{}
+				_, err := ds.MapEntities("", -1, func(e *Entity) error {
+					id := h.AbsID(e.ID)
+					if strings.HasPrefix(id, "g") && !seen[id] {
+						seen[id] = true
+						got++
+					}
+					return nil
+				})
+				res.Checks++
+				killDesc := fmt.Sprintf("commit=%d point=%s#%d", spec.Kill.Commit, spec.Kill.Point, spec.Kill.N)
+				if err != nil {
+					res.Viol = append(res.Viol, engine.Violation{Key: "C04:huge-listing-fails|" + killDesc, What: "listing the dataset after recovery fails: " + err.Error()})
+					return
+				}
+				res.Matched = res.Acked
+				if got == n {
+					res.Matched = len(spec.Hist)
+				}
+				res.Key = fmt.Sprintf("present=%d/%d", got, n)
+				if got != 0 && got != n {
+					res.Viol = append(res.Viol, engine.Violation{Key: "C04:atomicity:huge-batch|" + killDesc,
+						What: fmt.Sprintf("after a kill at %s during one batch of %d entities, %d of them are present after recovery (all or nothing expected)", killDesc, n+1, got)})
+				}
+				if res.Acked == len(spec.Hist) && got != n {
+					res.Viol = append(res.Viol, engine.Violation{Key: "C04:durability:huge-batch|" + killDesc,
+						What: fmt.Sprintf("the batch of %d entities was acknowledged but only %d are present after recovery", n+1, got)})
+				}
+			})
+		})
+	})
 	engine.RegisterWorker("crash-store", func(args []string) {
 		engine.ServeWorker(func(task []byte) interface{} {
 			var spec CrashSpec
